@@ -15,21 +15,21 @@ import (
 )
 
 type SpecEnv struct {
-	vc       *VC
-	fr       *frame
-	at       *ssa.BasicBlock
-	vars     map[string]Val
-	oldVars  map[string]Val
-	st       *state
-	old      Heap
-	contract *Contract
-	reach    string
-	pkg      *types.Package
-	inOld    bool
+	vc         *VC
+	fr         *frame
+	at         *ssa.BasicBlock
+	vars       map[string]Val
+	oldVars    map[string]Val
+	st         *state
+	old        Heap
+	contract   *Contract
+	reach      string
+	pkg        *types.Package
+	inOld      bool
 	macroDepth int
-	noLocals bool
-	outermost bool
-	locals   map[string]Val
+	noLocals   bool
+	outermost  bool
+	locals     map[string]Val
 }
 
 func (vc *VC) specEnv(fr *frame, st *state, at *ssa.BasicBlock) *SpecEnv {
@@ -345,10 +345,8 @@ func (e *SpecEnv) evalIdent(id *ast.Ident) (Val, error) {
 		// at a loop header: number of completed iterations; inside the body (postconditions of a return
 		// inside the loop): the current index; outside any index loop: -1
 		if e.at != nil && e.fr != nil {
-			for _, ins := range e.at.Instrs {
-				if phi, ok := ins.(*ssa.Phi); ok && phi.Comment == "rangeindex" {
-					return Val{T: "(+ " + e.fr.vals[phi].T + " 1)", Typ: types.Typ[types.Int]}, nil
-				}
+			if phi, off, ok := loopCounter(e.at); ok {
+				return Val{T: completedIters(e.fr.vals[phi].T, off), Typ: types.Typ[types.Int]}, nil
 			}
 		}
 		return Val{T: "(- 1)", Typ: types.Typ[types.Int]}, nil
@@ -957,6 +955,8 @@ general:
 			return Val{T: "(str.suffixof " + args[1].T + " " + args[0].T + ")", Typ: boolT}, nil
 		case "indexof":
 			return Val{T: "(str.indexof " + args[0].T + " " + args[1].T + " 0)", Typ: intT}, nil
+		case "replacefirst":
+			return Val{T: "(str.replace " + args[0].T + " " + args[1].T + " " + args[2].T + ")", Typ: strT}, nil
 		case "replaceall":
 			return Val{T: "(str.replace_all " + args[0].T + " " + args[1].T + " " + args[2].T + ")", Typ: strT}, nil
 		case "isnilslice":
@@ -1307,11 +1307,9 @@ func (e *SpecEnv) evalDone(j Val) (Val, error) {
 	if e.at == nil {
 		return Val{}, fmt.Errorf("done() outside loop invariant")
 	}
-	for _, ins := range e.at.Instrs {
-		if phi, ok := ins.(*ssa.Phi); ok && phi.Comment == "rangeindex" {
-			cur := e.fr.vals[phi]
-			return Val{T: fmt.Sprintf("(and (<= 0 %s) (<= %s %s))", j.T, j.T, cur.T), Typ: boolT}, nil
-		}
+	if phi, off, ok := loopCounter(e.at); ok {
+		cur := completedIters(e.fr.vals[phi].T, off)
+		return Val{T: fmt.Sprintf("(and (<= 0 %s) (< %s %s))", j.T, j.T, cur), Typ: boolT}, nil
 	}
 	for _, ins := range e.at.Instrs {
 		if nx, ok := ins.(*ssa.Next); ok {
@@ -1461,7 +1459,6 @@ func (e *SpecEnv) modLocs(x ast.Expr) ([]modLoc, error) {
 	}
 	return nil, fmt.Errorf("unsupported modifies expression %s", exprString(x))
 }
-
 
 // memberN returns the term memberN(inner, n, k) and asserts its one-level unfolding at n and the
 // witness axiom (a member has an index).
